@@ -34,7 +34,8 @@ RULE = ("Hypothesis-generated data sets: n in 2..200 points (mostly 2..12, every
         "two lists, two tuples, flat x1, y1, ..., y-only list, copy, set(); for n <= 4 the body runs "
         "every permutation of the points. Non-trivial: >= 3 points and non-zero noise, or clustered "
         "abscissae, or a permuted / alternative input form; always for degenerate. Distinct = "
-        "distinct case dict.")
+        "distinct case dict."
+        " Further input forms: a longer x list, a longer y tuple, an odd number of flat values (surplus values without partner are dropped), and an object already fitted on other (ordinary or degenerate) data that takes over another CurveFitting through set(). Abscissae may be Python ints, among them tables that start at 0, end at n-1 and sum to n(n-1)/2 without being the index set.")
 ASSUMPTIONS = [
     "well-conditioned (coefficients asserted) means: (100 + 4n) * 2.2e-16 * G < 1e-6 where G is the "
     "larger of (i) the exact kappa_inf of the normal matrix scaled symmetrically by powers of two "
